@@ -25,12 +25,13 @@ const (
 	opRecv
 	opClose
 	opLock
+	opRLock
 	opWgAdd
 	opWgDone
 	opWgWait
 )
 
-var opNames = [...]string{"start", "spawn", "send", "recv", "close", "lock", "wg.Add", "wg.Done", "wg.Wait"}
+var opNames = [...]string{"start", "spawn", "send", "recv", "close", "lock", "rlock", "wg.Add", "wg.Done", "wg.Wait"}
 
 type pend struct {
 	kind opKind
@@ -59,7 +60,9 @@ type chanShadow struct {
 }
 
 type lockShadow struct {
-	held bool
+	held    bool
+	readers int   // sync.RWMutex: number of read locks held
+	rvc     []int // join of the clocks of the read-unlocks since the last write lock
 	id   int
 	vc   []int
 }
@@ -84,6 +87,7 @@ type schedT struct {
 	nobj     int
 	log      []string
 	shadow   map[uintptr]*varShadow
+	atomicVC []int
 }
 
 var s *schedT
@@ -152,6 +156,9 @@ func (sc *schedT) enabled(t *thread) bool {
 		cs := sc.chanOf(t.op.ch)
 		return cs.closed || t.op.ch.Len() > 0
 	case opLock:
+		l := sc.lockOf(t.op.obj)
+		return !l.held && l.readers == 0
+	case opRLock:
 		return !sc.lockOf(t.op.obj).held
 	case opWgWait:
 		return sc.wgOf(t.op.obj).n == 0
@@ -266,6 +273,24 @@ func yield(p pend) {
 	me.op = &p
 	sc.pickNext(me)
 	me.op = nil
+}
+
+// AtomicYield is inserted in front of every statement that performs a
+// sync/atomic operation: a scheduling point at which the thread stays enabled.
+func AtomicYield() {
+	if !schedOn() || s.aborting {
+		return
+	}
+	yield(pend{kind: opYield})
+	// Go's atomics are sequentially consistent synchronisation operations.  Which
+	// load observes which store is not tracked: every atomic operation is treated
+	// as acquire+release on one global object, which over-approximates
+	// happens-before (races may be missed here — the free-running -race pass is
+	// precise about atomics — but none is invented).
+	me := s.cur
+	joinVC(me, s.atomicVC)
+	me.vc[me.id]++
+	s.atomicVC = maxVC(s.atomicVC, me.vc)
 }
 
 // Run executes root as thread 0 of a controlled execution and returns the
@@ -515,6 +540,68 @@ func Unlock(m *sync.Mutex) {
 		me.vc[me.id]++
 	}
 	m.Unlock()
+}
+
+// ---- RWMutex hooks (write side shares the mutex shadow; read locks are counted)
+
+func RWLock(m *sync.RWMutex) {
+	if schedOn() && !s.aborting {
+		p := reflect.ValueOf(m).Pointer()
+		yield(pend{kind: opLock, obj: p})
+		sc := s
+		if !sc.aborting {
+			l := sc.lockOf(p)
+			l.held = true
+			joinVC(sc.cur, l.vc)
+			joinVC(sc.cur, l.rvc)
+			l.rvc = nil
+		}
+	}
+	m.Lock()
+}
+
+func RWUnlock(m *sync.RWMutex) {
+	if schedOn() && !s.aborting {
+		sc := s
+		l := sc.lockOf(reflect.ValueOf(m).Pointer())
+		if !l.held {
+			sc.fail(sc.cur, fmt.Sprintf("unlock of unlocked RWMutex by T%d", sc.cur.id))
+		}
+		l.held = false
+		me := sc.cur
+		l.vc = append([]int{}, me.vc...)
+		me.vc[me.id]++
+	}
+	m.Unlock()
+}
+
+func RWRLock(m *sync.RWMutex) {
+	if schedOn() && !s.aborting {
+		p := reflect.ValueOf(m).Pointer()
+		yield(pend{kind: opRLock, obj: p})
+		sc := s
+		if !sc.aborting {
+			l := sc.lockOf(p)
+			l.readers++
+			joinVC(sc.cur, l.vc)
+		}
+	}
+	m.RLock()
+}
+
+func RWRUnlock(m *sync.RWMutex) {
+	if schedOn() && !s.aborting {
+		sc := s
+		l := sc.lockOf(reflect.ValueOf(m).Pointer())
+		if l.readers <= 0 {
+			sc.fail(sc.cur, fmt.Sprintf("RUnlock of an RWMutex that is not read-locked by T%d", sc.cur.id))
+		}
+		l.readers--
+		me := sc.cur
+		l.rvc = maxVC(l.rvc, me.vc)
+		me.vc[me.id]++
+	}
+	m.RUnlock()
 }
 
 // ---- WaitGroup hooks
